@@ -546,6 +546,15 @@ func write(sb *strings.Builder, t *Term, vn func(id int64) string) {
 	case KOther:
 		fmt.Fprintf(sb, "'$other'(%s)", AtomText(t.S))
 	case KCmp:
+		if t.IsCmp(".", 2) && t.Rep == "string" {
+			// a double-quoted literal (the reader's meaning depends on the double_quotes flag)
+			if txt, ok := plainString(t); ok {
+				sb.WriteByte('"')
+				sb.WriteString(txt)
+				sb.WriteByte('"')
+				return
+			}
+		}
 		if t.IsCmp(".", 2) {
 			sb.WriteByte('[')
 			first := true
@@ -626,4 +635,18 @@ func AtomText(s string) string {
 	}
 	sb.WriteByte('\'')
 	return sb.String()
+}
+
+// plainString returns the text of a proper list of one-character atoms made of letters and digits only.
+func plainString(t *Term) (string, bool) {
+	var sb strings.Builder
+	for t.IsCmp(".", 2) {
+		e := t.Args[0]
+		if e.K != KAtom || len(e.S) != 1 || !(e.S[0] >= 'a' && e.S[0] <= 'z' || e.S[0] >= '0' && e.S[0] <= '9') {
+			return "", false
+		}
+		sb.WriteString(e.S)
+		t = t.Args[1]
+	}
+	return sb.String(), t.IsAtom("[]") && sb.Len() > 0
 }
